@@ -201,6 +201,12 @@ func transSites(args []string) any {
 	unordered := []callSite{}
 	ctors := []ctorSite{}
 	typeErrors := []string{}
+	type pkgData struct {
+		files []*ast.File
+		info  *types.Info
+	}
+	allPkgs := []pkgData{}
+	module := modulePath(root)
 
 	for _, d := range dirs {
 		files := []*ast.File{}
@@ -215,6 +221,7 @@ func transSites(args []string) any {
 		info := &types.Info{Types: map[ast.Expr]types.TypeAndValue{}, Uses: map[*ast.Ident]types.Object{}, Defs: map[*ast.Ident]types.Object{}}
 		conf := types.Config{Importer: imp, Error: func(err error) { typeErrors = append(typeErrors, err.Error()) }}
 		pkg, _ := conf.Check(d, fset, files, info)
+		allPkgs = append(allPkgs, pkgData{files, info})
 
 		// package-level variables
 		pkgVars := map[types.Object]*varSite{}
@@ -315,6 +322,47 @@ func transSites(args []string) any {
 						}
 					}
 				}
+				// a package variable of reference kind stored somewhere (alias, struct field, slice element, closure capture is not
+				// detected): afterwards it can be modified through the other name
+				{
+					var stack []ast.Node
+					ast.Inspect(fd.Body, func(n ast.Node) bool {
+						if n == nil {
+							stack = stack[:len(stack)-1]
+							return true
+						}
+						stack = append(stack, n)
+						id, ok := n.(*ast.Ident)
+						if !ok {
+							return true
+						}
+						v, ok := pkgVars[info.Uses[id]]
+						if !ok || v.Kind != "reference" || len(stack) < 2 {
+							return true
+						}
+						switch p := stack[len(stack)-2].(type) {
+						case *ast.AssignStmt:
+							for _, r := range p.Rhs {
+								if r == ast.Expr(id) {
+									v.Passed = append(v.Passed, fname+": alias "+nodeText(fset, p))
+								}
+							}
+						case *ast.ValueSpec:
+							for _, r := range p.Values {
+								if r == ast.Expr(id) {
+									v.Passed = append(v.Passed, fname+": alias "+nodeText(fset, p))
+								}
+							}
+						case *ast.KeyValueExpr:
+							if p.Value == ast.Expr(id) {
+								v.Passed = append(v.Passed, fname+": stored in a composite literal")
+							}
+						case *ast.CompositeLit:
+							v.Passed = append(v.Passed, fname+": stored in a composite literal")
+						}
+						return true
+					})
+				}
 				ast.Inspect(fd.Body, func(n ast.Node) bool {
 					switch x := n.(type) {
 					case *ast.BlockStmt:
@@ -399,7 +447,11 @@ func transSites(args []string) any {
 						for _, a := range x.Args {
 							if id, ok := a.(*ast.Ident); ok {
 								if v, ok := pkgVars[info.Uses[id]]; ok {
-									v.Passed = append(v.Passed, fname+": "+nodeText(fset, x.Fun)+"(.."+id.Name+"..)")
+									if fn := nodeText(fset, x.Fun); fn == "delete" || fn == "clear" {
+										v.Writes = append(v.Writes, fname+": "+nodeText(fset, x))
+									} else if fn != "len" && fn != "cap" {
+										v.Passed = append(v.Passed, fname+": "+fn+"(.."+id.Name+"..)")
+									}
 								}
 							}
 						}
@@ -438,7 +490,119 @@ func transSites(args []string) any {
 			vars = append(vars, *v)
 		}
 	}
+	// pass 2: uses of an exported package variable from ANOTHER package of the module (pkg.Var), classified by context
+	byKey := map[string]*varSite{}
+	for i := range vars {
+		byKey[filepath.ToSlash(filepath.Dir(vars[i].File))+"."+vars[i].Name] = &vars[i]
+	}
+	for _, pd := range allPkgs {
+		for _, f := range pd.files {
+			rel, _ := filepath.Rel(root, fset.Position(f.Pos()).Filename)
+			var stack []ast.Node
+			ast.Inspect(f, func(n ast.Node) bool {
+				if n == nil {
+					stack = stack[:len(stack)-1]
+					return true
+				}
+				stack = append(stack, n)
+				se, ok := n.(*ast.SelectorExpr)
+				if !ok {
+					return true
+				}
+				id, ok := se.X.(*ast.Ident)
+				if !ok {
+					return true
+				}
+				pn, ok := pd.info.Uses[id].(*types.PkgName)
+				if !ok || !strings.HasPrefix(pn.Imported().Path(), module+"/") {
+					return true
+				}
+				v, ok := byKey[strings.TrimPrefix(pn.Imported().Path(), module+"/")+"."+se.Sel.Name]
+				if !ok {
+					return true
+				}
+				where := rel + ": "
+				// climb through index / field / star to the statement that uses the variable
+				k := len(stack) - 2
+				cur := ast.Node(se)
+				for k >= 0 {
+					switch p := stack[k].(type) {
+					case *ast.IndexExpr:
+						if p.X == cur {
+							cur = p
+							k--
+							continue
+						}
+					case *ast.SelectorExpr:
+						if p.X == cur {
+							cur = p
+							k--
+							continue
+						}
+					case *ast.StarExpr, *ast.ParenExpr:
+						cur = stack[k]
+						k--
+						continue
+					}
+					break
+				}
+				if k < 0 {
+					return true
+				}
+				switch p := stack[k].(type) {
+				case *ast.AssignStmt:
+					for _, l := range p.Lhs {
+						if l == cur {
+							v.Writes = append(v.Writes, where+nodeText(fset, p))
+						}
+					}
+					for _, r := range p.Rhs {
+						if r == cur && cur == ast.Node(se) && v.Kind == "reference" {
+							v.Passed = append(v.Passed, where+"alias "+nodeText(fset, p))
+						}
+					}
+				case *ast.IncDecStmt:
+					v.Writes = append(v.Writes, where+nodeText(fset, p))
+				case *ast.CallExpr:
+					if p.Fun == cur {
+						if cs, ok := cur.(*ast.SelectorExpr); ok && cs != se {
+							v.Calls = append(v.Calls, where+cs.Sel.Name)
+						}
+					} else if cur == ast.Node(se) {
+						fn := nodeText(fset, p.Fun)
+						if fn == "delete" || fn == "clear" || fn == "append" {
+							v.Writes = append(v.Writes, where+nodeText(fset, p))
+						} else if fn != "len" && fn != "cap" && v.Kind == "reference" {
+							v.Passed = append(v.Passed, where+fn+"(.."+se.Sel.Name+"..)")
+						}
+					}
+				case *ast.UnaryExpr:
+					if p.Op == token.AND {
+						v.Passed = append(v.Passed, where+nodeText(fset, p))
+					}
+				case *ast.KeyValueExpr, *ast.CompositeLit, *ast.ReturnStmt, *ast.ValueSpec:
+					if cur == ast.Node(se) && v.Kind == "reference" {
+						v.Passed = append(v.Passed, where+"stored or returned")
+					}
+				}
+				return true
+			})
+		}
+	}
 	return map[string]any{"map_ranges": ranges, "iterator_ranges": iters, "package_vars": vars, "scheduling": gos, "ambient": ambient, "unordered_calls": unordered, "constructors": ctors, "type_errors": typeErrors}
+}
+
+func modulePath(root string) string {
+	data, err := os.ReadFile(filepath.Join(root, "go.mod"))
+	if err != nil {
+		return ""
+	}
+	for _, line := range strings.Split(string(data), "\n") {
+		if strings.HasPrefix(line, "module ") {
+			return strings.TrimSpace(strings.TrimPrefix(line, "module "))
+		}
+	}
+	return ""
 }
 
 func identOf(e ast.Expr) *ast.Ident {
